@@ -514,7 +514,10 @@ fn consensus_written(o: &mut Observer, ev: &TapEvent, m: &ConsensusMessage) {
                     let any_shape = vs.iter().any(|b| shape_ok(b));
                     let any_sig = vs.iter().any(|b| ident::verify_sig(&v.hash, &b.author, &b.signature));
                     let b0 = &vs[0];
-                    (b0.qc.round, any_shape, b0.author, any_sig, true, b0.payload.clone())
+                    // The QC round the vote commits the node to: the lowest among the variants it
+                    // may legitimately have voted for (the permissive choice).
+                    let qr = vs.iter().filter(|b| shape_ok(b)).map(|b| b.qc.round).min().unwrap_or(b0.qc.round);
+                    (qr, any_shape, b0.author, any_sig, true, b0.payload.clone())
                 }
                 _ => (0, false, PublicKey::default(), false, false, Vec::new()),
             };
